@@ -23,6 +23,7 @@ warning:
   - w-cmp
   - v-wide-or
   - v-two-kinds
+  - v-lookalike
 info:
   - i-shapes
 validations:
@@ -61,6 +62,27 @@ validations:
       - propertyConstraints:
           ex.w9:
             minCount: 1
+  v-lookalike:
+    targetClass: ex.T
+    message: operands that print alike
+    or:
+      - and:
+          - propertyConstraints:
+              ex.q:
+                in: [ "ok,fine" ]
+          - propertyConstraints:
+              ex.q:
+                in: [ ok, fine ]
+      - and:
+          - propertyConstraints:
+              ex.low:
+                minInclusive: 4.0000001
+          - propertyConstraints:
+              ex.low:
+                minInclusive: 4.0000004
+          - propertyConstraints:
+              ex.low:
+                maxInclusive: 4.0000002
   v-two-kinds:
     targetClass: ex.T
     message: two expression kinds in one mapping
@@ -141,6 +163,11 @@ def _wide_nodes():
 
 
 RICH_DATA = json.dumps(_wide_nodes() + [
+    {"@id": "http://example.org/look1", "@type": ["http://example.org/ns#T"], "http://example.org/ns#q": "ok,fine", "http://example.org/ns#p": "x"},
+    {"@id": "http://example.org/look2", "@type": ["http://example.org/ns#T"], "http://example.org/ns#q": "fine", "http://example.org/ns#p": "x",
+     "http://example.org/ns#low": 4.0000003},
+    {"@id": "http://example.org/look3", "@type": ["http://example.org/ns#T"], "http://example.org/ns#q": "none", "http://example.org/ns#p": "x",
+     "http://example.org/ns#low": 4.0000002},
     {"@id": "http://example.org/n1", "@type": ["http://example.org/ns#T"], "http://example.org/ns#q": "toolong",
      "http://example.org/ns#child": [{"@id": "http://example.org/n2"}], "http://example.org/ns#low": 5, "http://example.org/ns#high": 3},
     {"@id": "http://example.org/n2", "@type": ["http://example.org/ns#T"], "http://example.org/ns#p": ["a", "b", "c"],
